@@ -17,8 +17,8 @@ for d in sorted(glob.glob(os.path.join(root, "seeded", "*/")), key=key):
         summ = summ[:167] + "..."
     note = (m.get("note") or "").replace("|", "/")
     stats["total"] += 1
-    kind_note = note.replace("; patch context refreshed", "|").split("|")[0]
-    if kind_note.startswith("patch context refreshed"):
+    kind_note = re.sub(r"[\s;(]*patch context refreshed.*$", "", note).strip()
+    if kind_note.startswith("caught at once"):
         kind_note = ""
     if kind_note.startswith("missed"):
         stats["missed_first"] += 1
